@@ -360,6 +360,10 @@ def run(rec, cfg):
     rec.accept = {"clone", "cfr"}
     MC.attach_clone("C13")
     rng = cfg.rng("c13")
+    from ..workloads import interrupted as _INT
+
+    if cfg.shard == 6 % cfg.nshards:
+        _INT.clone_cases(rec, "C13")
     rules = MR.rule_instances()
     corp = WT.corpus()
     if cfg.shard == 3 % cfg.nshards:
@@ -421,6 +425,11 @@ def run(rec, cfg):
 
 
 def replay(rec, cfg, w):
+    if "failpoint" in w:
+        from ..workloads import interrupted as _INT
+
+        _INT.clone_cases(rec, "C13")      # deterministic: the whole family of cases is run again
+        return
     if w.get("retry"):
         retry_clone_from_root(rec)
         return
